@@ -54,4 +54,33 @@ package raft
 //@   ensures [C19.commit-monotone] result0 == success ==> r.commitIndex >= old(r.commitIndex)
 //@   ensures [C19.snapshot-monotone] r.snaps.index >= old(r.snaps.index)
 //@   ensures [C19.order] result0 == success ==> r.log.gprev <= r.snaps.index && r.snaps.index <= r.lastLogIndex && r.commitIndex <= r.lastLogIndex && r.log.glast == r.lastLogIndex
-//@   crash_inv [C10.install-window] gfault || (r.log.gprev <= r.snaps.index && r.snaps.index <= r.log.glast)
+// a snapshot beyond the end of the log is repaired on restart (openStorage, C10.recover-contiguous)
+//@   crash_inv [C10.install-window] gfault || r.log.gprev <= r.snaps.index
+
+// ---------------------------------------------------------------------------
+// restart (C10, C19): openStorage recovers a node whose log is contiguous with its snapshot
+
+//@ ghost func dlogPrev(string) uint64
+//@ ghost func dlogLast(string) uint64
+
+// log.Open (T-abs view): the recovered log covers (dlogPrev, dlogLast] of that directory and every
+// entry decodes to its own index (C13/C14 give this for the log package)
+//@ view log.Open
+//@   ensures result1 != nil ==> result0 == nil
+//@   ensures result1 == nil ==> result0 != nil && isfresh(result0) && result0.gprev == dlogPrev(dir) && result0.glast == dlogLast(dir) && result0.gprev <= result0.glast && forall(i, result0.geidx[i] == i)
+//@ view (*log.Log).Count
+//@   ensures result0 == l.glast - l.gprev
+//@ view (*log.Log).Close
+//@   ensures true
+
+//@ func (*value).get
+//@   inline
+
+//@ func openStorage
+//@   requires [C10.disk-contiguous] dlogPrev(pjoin(dir, "log")) == 0 || exists(i, fs[mfile(pjoin(dir, "snapshots"), i)] && dlogPrev(pjoin(dir, "log")) <= i)
+//@   modifies *
+//@   maypanic OpError
+//@   ensures result1 != nil ==> result0 == nil
+//@   ensures [C10.recover-contiguous] result1 == nil ==> result0 != nil && result0.snaps != nil && result0.log != nil && result0.snaps.index <= result0.log.glast && result0.log.glast == result0.lastLogIndex && result0.snaps.index <= result0.lastLogIndex
+//@   ensures [C10.recover-prev] result1 == nil && result0.snaps.index != 0 ==> result0.log.gprev <= result0.snaps.index
+//@   loop 1 invariant s != nil && s.log != nil && s.snaps != nil && s.snaps.index <= s.log.glast && s.log.glast == s.lastLogIndex && s.snaps.index <= s.lastLogIndex && (s.snaps.index != 0 ==> s.log.gprev <= s.snaps.index) && i <= s.lastLogIndex && need >= 1 && need <= 2
